@@ -89,6 +89,7 @@ def applyCounts [Zero R] (u : Arr R) (s : BVec R) (vh : Arr R) (counts : List Na
 
 /-- `eigh(a)` (and `eigh_fermionic`) -/
 def eighA [Neg R] (K : Kernels R) (a : Arr R) : Except Err (BVec R × Arr R) := do
+  let a := if a.fermi && !a.phases.isEmpty then a.phaseSync else a
   if a.ndim != 2 then throw Err.notimpl
   if a.charge != a.sym.zero then throw Err.value
   let fac := a.blocks.map (fun (s, b) => (s, K.eigh b))
